@@ -380,7 +380,22 @@ fn simplify2(rng: &mut Rng) {
 }
 
 fn simplify3(rng: &mut Rng) {
-    let Some((c, _, tol)) = gen::curve3(rng) else { return };
+    let Some((c, pts0, tol)) = gen::curve3(rng) else { return };
+    // a third of the curves are built with a COARSE tolerance of their own (a hundredth to a tenth of their length):
+    // the simplification tolerance is the one that is asked for, whatever the curve's
+    let (c, tol) = if rng.chance(0.33) {
+        let t = c.length() * 10f64.powf(rng.range(-2.0, -1.0));
+        match Curve3::from_points(&pts0, t) {
+            // (an open curve whose two END points lie within its own tolerance of each other is left out: `simplify`
+            // returns a curve, not a Result, and when the reduction leaves only those two points the constructor
+            // refuses them and the `unwrap` inside `simplify` panics — a limit of the signature, reachable at any
+            // tolerance, that the property does not speak about; see DESIGN 8.20)
+            Ok(k) if (k.at_front().point() - k.at_back().point()).norm() > 2.0 * t => (k, t),
+            _ => (c, tol),
+        }
+    } else {
+        (c, tol)
+    };
     let l = c.length();
     let e = l * 10f64.powf(rng.range(-4.0, -0.5));
     let r = guarded(|| c.simplify(e));
